@@ -11,7 +11,7 @@ from gunicorn.http.errors import NoMoreData
 ID = "C07"
 LEVEL = "exploration"
 DESIGN_REF = "DESIGN.md §4 C07"
-QUICK_RUNS = 300000
+QUICK_RUNS = 150000
 THOROUGH_MIN_RUNS = 100000
 BATCH = 2000
 CASE_WALL_S = 20.0
@@ -62,6 +62,9 @@ def gen_valid_message(rng, last):
         body = b"".join(httpgen.rbytes(rng, rng.randrange(0, 40), b"xyz \r") + b"\n" for _ in range(rng.randrange(1, 80)))
     elif n < 6:
         body = httpgen.SMUGGLE * rng.randrange(1, 4)
+    elif n == 11 and rng.randrange(3) == 0:
+        # larger than any internal read/discard block: 64 KiB boundaries
+        body = (b"L" * 1023 + b"\n") * 64 + b"x" * rng.choice([0, 1, 4464, 65537])
     elif n < 7:
         body = b"\n" * rng.randrange(1, 2000)
     else:
@@ -87,8 +90,11 @@ def make_case(index, rng, tier):
     eof = None
     if rng.randrange(5) == 0:
         eof = rng.randrange(1, total)
+    seg = rng.choice(["max", "k", "k", "bytes1", "small"])
+    if total > 20000:
+        seg = rng.choice(["max", "k"])
     return {"msgs": [b2j(m) for m in msgs], "programs": [gen_program(rng) for _ in msgs],
-            "eof_at": eof, "seg": rng.choice(["max", "k", "k", "bytes1", "small"])}
+            "eof_at": eof, "seg": seg}
 
 
 def _cuts(case, n, choices):
